@@ -27,6 +27,8 @@ RULE = (
     "bitwise identical update. Non-trivial = a history containing a retain_graph=False torchjd call on a graph with "
     "saved tensors followed by another differentiation, or a chunked (k < m) retain_graph=False call. Distinct = "
     "distinct (program, history)."
+    " Parts `many_rows` / `many_tasks`: 70..1030 rows (tasks) in one batched differentiation (chunk None, m, m-1, 256, 300), both "
+    "flag values; the call must succeed and the graph must afterwards be usable exactly when retain_graph=True."
 )
 ASSUMPTIONS = [
     "torch.autograd's own freeing behaviour is the reference; both graphs are built by the same deterministic executor",
